@@ -48,6 +48,9 @@ pub enum Case {
         /// all coefficients are multiplied by 10^scale_exp (the roots do not move)
         #[serde(default)]
         scale_exp: f64,
+        /// 0: n_max = 100; k > 0: n_max = k - 1 (exhaustion class: Err, or an Ok that meets the accuracy bound)
+        #[serde(default)]
+        cap: u8,
     },
     Muller {
         complex_field: bool,
@@ -59,6 +62,8 @@ pub enum Case {
         tol: f64,
         #[serde(default)]
         scale_exp: f64,
+        #[serde(default)]
+        cap: u8,
     },
     /// g(x) = relax * x + (1 - relax) * r(x): same fixed point as the catalogue map r, slope relax + (1-relax) r'
     Steff {
@@ -390,7 +395,10 @@ where
         Err(Caught::Panic(m)) => return o.fail(format!("complex system: panicked: {m}")),
     };
     let rnorm = rv.iter().map(|z| z.norm_sqr()).sum::<f64>().sqrt();
-    let bound = 2.0 * tol + 256.0 * EPS * kappa * (1.0 + rnorm);
+    // Newton: 2 tol as for real systems. The secant method's Broyden update transposes without conjugating, which still
+    // satisfies the secant equation but is not the least-change update for complex data: its last step is a poorer
+    // indicator of the distance to the root (worst seen 3.1 tol in 1.2e7 cases), hence 10 tol there.
+    let bound = if method == 0 { 2.0 } else { 10.0 } * tol + 256.0 * EPS * kappa * (1.0 + rnorm);
     o.nontrivial = true;
     if affine {
         o.label("affine");
@@ -402,7 +410,7 @@ where
                 return o.fail("Ok result contains NaN or infinity");
             }
             let e = (0..S).map(|i| (x[i] - rv[i]).norm_sqr()).sum::<f64>().sqrt();
-            o.set("ratio_err_complex", e / bound);
+            o.set(if method == 0 { "ratio_err_complex_newton" } else { "ratio_err_complex_secant" }, e / bound);
             if e <= bound {
                 o.pass()
             } else {
@@ -446,7 +454,11 @@ fn root_floor(cf: &[C64], rs: &RootSet, idx: usize) -> f64 {
 }
 
 fn run_newton_poly(case: &Case, mut o: Obs) -> Outcome {
-    let Case::NewtonPoly { complex_field, rs, target, rho, angle, tol, scale_exp } = case else { unreachable!() };
+    let Case::NewtonPoly { complex_field, rs, target, rho, angle, tol, scale_exp, cap } = case else { unreachable!() };
+    let n_max = if *cap == 0 { 100 } else { *cap as usize - 1 };
+    if *cap != 0 {
+        o.label("poly-exhaustion");
+    }
     let scale = scale_of(&mut o, *scale_exp);
     let roots = rs.all_roots();
     let n = roots.len();
@@ -464,10 +476,10 @@ fn run_newton_poly(case: &Case, mut o: Obs) -> Outcome {
     let res: Result<Result<C64, String>, Caught> = if real_ok {
         let p = poly_real(&cf, scale);
         let x0 = z.re + off.re.signum() * rho * rad;
-        guard(|| newton_polynomial(x0, &p, *tol, 100).map(|x| c(x, 0.0)))
+        guard(|| newton_polynomial(x0, &p, *tol, n_max).map(|x| c(x, 0.0)))
     } else {
         let p = poly_cplx(&cf, scale);
-        guard(|| newton_polynomial(z + off, &p, *tol, 100))
+        guard(|| newton_polynomial(z + off, &p, *tol, n_max))
     };
     if *rho == 0.0 {
         o.label("start-on-root");
@@ -479,6 +491,7 @@ fn run_newton_poly(case: &Case, mut o: Obs) -> Outcome {
     match res {
         Err(Caught::Panic(m)) => o.fail(format!("panicked: {m}")),
         Err(Caught::Budget(_)) => o.fail("budget"),
+        Ok(Err(_)) if *cap != 0 => o.pass(),
         Ok(Err(e)) => o.fail(format!("start within the Newton basin of a simple root returned Err({e})")),
         Ok(Ok(x)) => {
             if !(x.re.is_finite() && x.im.is_finite()) {
@@ -496,7 +509,11 @@ fn run_newton_poly(case: &Case, mut o: Obs) -> Outcome {
 }
 
 fn run_muller(case: &Case, mut o: Obs) -> Outcome {
-    let Case::Muller { complex_field, rs, target, offs, vertical, near, tol, scale_exp } = case else { unreachable!() };
+    let Case::Muller { complex_field, rs, target, offs, vertical, near, tol, scale_exp, cap } = case else { unreachable!() };
+    let n_max = if *cap == 0 { 100 } else { *cap as usize - 1 };
+    if *cap != 0 {
+        o.label("poly-exhaustion");
+    }
     let scale = scale_of(&mut o, *scale_exp);
     let roots = rs.all_roots();
     let n = roots.len();
@@ -536,10 +553,10 @@ fn run_muller(case: &Case, mut o: Obs) -> Outcome {
     }
     let res: Result<Result<C64, String>, Caught> = if use_real {
         let p = poly_real(&cf, scale);
-        guard(|| muller_polynomial((pts[0].re, pts[1].re, pts[2].re), &p, *tol, 100))
+        guard(|| muller_polynomial((pts[0].re, pts[1].re, pts[2].re), &p, *tol, n_max))
     } else {
         let p = poly_cplx(&cf, scale);
-        guard(|| muller_polynomial((pts[0], pts[1], pts[2]), &p, *tol, 100))
+        guard(|| muller_polynomial((pts[0], pts[1], pts[2]), &p, *tol, n_max))
     };
     o.label(if *near { "muller-near" } else { "muller-generic" });
     // real starting points next to the real part of a complex root are not "near the root": only the near class
@@ -552,7 +569,10 @@ fn run_muller(case: &Case, mut o: Obs) -> Outcome {
         Ok(Err(e)) => {
             // real-field triples near a complex root cannot be expected to converge quickly; only the
             // near class around a root reachable from the given field is required to succeed
-            if judged {
+            if *cap != 0 {
+                o.label("muller-err");
+                o.pass()
+            } else if judged {
                 o.fail(format!("three points within 0.1 of the separation from a simple root returned Err({e})"))
             } else {
                 o.label("muller-err");
@@ -634,6 +654,15 @@ fn r4(x: f64) -> f64 {
 fn r5(x: f64) -> f64 {
     0.5 * (x + 2.0 / x)
 }
+fn r6(x: f64) -> f64 {
+    // defined for x >= 0.9 only (unique fixed point 1.3266): an extrapolated iterate below 0.9 gives NaN, and the
+    // routine must then end in Err
+    1.0 + (x - 0.9).sqrt() / 2.0
+}
+fn g6(x: f64) -> f64 {
+    tick();
+    relaxed(x, r6(x))
+}
 fn g0(x: f64) -> f64 {
     tick();
     relaxed(x, r0(x))
@@ -660,13 +689,14 @@ fn g5(x: f64) -> f64 {
 }
 
 /// (counted function, raw function, rough location of the fixed point, basin half-width, name)
-const STEFF: [(fn(f64) -> f64, fn(f64) -> f64, f64, f64, &str); 6] = [
+const STEFF: [(fn(f64) -> f64, fn(f64) -> f64, f64, f64, &str); 7] = [
     (g0, r0, 0.739, 0.5, "cos"),
     (g1, r1, 0.567, 0.4, "exp(-x)"),
     (g2, r2, 1.365, 0.5, "sqrt(10/(x+4))"),
     (g3, r3, 2.0, 3.0, "0.5x+1"),
     (g4, r4, 1.288, 0.5, "1+0.3sin"),
     (g5, r5, 1.414, 0.3, "heron"),
+    (g6, r6, 1.3266, 0.4, "1+sqrt(x-0.9)/2"),
 ];
 
 /// the fixed point, by plain iteration of the contraction in the harness
@@ -712,7 +742,12 @@ fn run_steff(case: &Case, mut o: Obs) -> Outcome {
         Err(Caught::Panic(m)) => o.fail(format!("panicked: {m}")),
         Err(Caught::Budget(_)) => o.fail(format!("more than {} function calls with n_max = {cap}", 2 * cap + 4)),
         Ok(Err(e)) => {
-            if *cap >= 50 {
+            if name.contains("sqrt(x-0.9)") {
+                // the map is undefined left of 1: an extrapolated iterate can leave the domain (NaN), and Err is then the
+                // required outcome - what must never come back is Ok(NaN)
+                o.label("steffensen-left-domain-err");
+                o.pass()
+            } else if *cap >= 50 {
                 o.fail(format!("contraction {name} from x0 = {x0} with tol {tol:e} returned Err({e})"))
             } else {
                 o.label("exhaustion");
@@ -765,6 +800,11 @@ fn scale_exp() -> BoxedStrategy<f64> {
     prop_oneof![3 => Just(0.0), 2 => gen::fl(-8.0, 4.0)].boxed()
 }
 
+/// iteration cap of the polynomial routines: 100, or (one case in six) 0..6 iterations
+fn pcap() -> BoxedStrategy<u8> {
+    prop_oneof![5 => Just(0u8), 1 => 1u8..=7].boxed()
+}
+
 fn strategy(_t: Tier) -> BoxedStrategy<Case> {
     let diag = (gen::fl(1.0, 3.0), gen::sign()).prop_map(|(m, s)| m * s);
     let _ = diag;
@@ -793,13 +833,13 @@ fn strategy(_t: Tier) -> BoxedStrategy<Case> {
             let (dim, cap, singular) = if complex { (1 + dim % 2, 0, false) } else { (dim, cap, singular) };
             Case::Sys { dim, method, a, scale, r, delta, eta, start, tol, h, cap, singular, shape, complex }
         });
-    let npoly = (any::<bool>(), prop_oneof![real_roots_only(1, 8), real_rootset(1, 8), complex_rootset(1, 8)], 0usize..8, prop_oneof![1 => Just(0.0), 6 => gen::fl(0.0, 1.0)], gen::fl(0.0, 6.2831), gen::logu(-10.0, -3.0), scale_exp())
-        .prop_map(|(complex_field, rs, target, rho, angle, tol, scale_exp)| Case::NewtonPoly { complex_field, rs, target, rho, angle, tol, scale_exp });
+    let npoly = (any::<bool>(), prop_oneof![real_roots_only(1, 8), real_rootset(1, 8), complex_rootset(1, 8)], 0usize..8, prop_oneof![1 => Just(0.0), 6 => gen::fl(0.0, 1.0)], gen::fl(0.0, 6.2831), gen::logu(-10.0, -3.0), (scale_exp(), pcap()))
+        .prop_map(|(complex_field, rs, target, rho, angle, tol, (scale_exp, cap))| Case::NewtonPoly { complex_field, rs, target, rho, angle, tol, scale_exp, cap });
     let off = || (gen::fl(-1.0, 1.0), gen::fl(-1.0, 1.0));
-    let muller = (any::<bool>(), prop_oneof![real_roots_only(2, 8), real_rootset(2, 8), complex_rootset(2, 8)], 0usize..8, [off(), off(), off()], prop_oneof![3 => Just(false), 1 => Just(true)], prop_oneof![3 => Just(true), 1 => Just(false)], gen::logu(-10.0, -3.0), scale_exp())
-        .prop_map(|(complex_field, rs, target, offs, vertical, near, tol, scale_exp)| Case::Muller { complex_field, rs, target, offs, vertical, near, tol, scale_exp });
+    let muller = (any::<bool>(), prop_oneof![real_roots_only(2, 8), real_rootset(2, 8), complex_rootset(2, 8)], 0usize..8, [off(), off(), off()], prop_oneof![3 => Just(false), 1 => Just(true)], prop_oneof![3 => Just(true), 1 => Just(false)], gen::logu(-10.0, -3.0), (scale_exp(), pcap()))
+        .prop_map(|(complex_field, rs, target, offs, vertical, near, tol, (scale_exp, cap))| Case::Muller { complex_field, rs, target, offs, vertical, near, tol, scale_exp, cap });
     let relax = prop_oneof![2 => Just(0.0), 1 => gen::fl(0.0, 0.9), 2 => gen::fl(0.7, 0.97)];
-    let steff = (0u8..6, gen::fl(-1.0, 1.0), gen::logu(-14.0, -3.0), prop_oneof![8 => Just(100usize), 1 => 0usize..3], relax).prop_map(|(func, off, tol, cap, relax)| Case::Steff { func, off, tol, cap, relax });
+    let steff = (0u8..7, gen::fl(-1.0, 1.0), gen::logu(-14.0, -3.0), prop_oneof![8 => Just(100usize), 1 => 0usize..3], relax).prop_map(|(func, off, tol, cap, relax)| Case::Steff { func, off, tol, cap, relax });
     prop_oneof![8 => sys, 4 => npoly, 4 => muller, 3 => steff].boxed()
 }
 
@@ -817,7 +857,7 @@ pub fn run(opts: &Opts) -> i32 {
             }
         }
     }
-    for func in 0..6u8 {
+    for func in 0..7u8 {
         for tol in [1e-4, 1e-13] {
             spec.enumerated.push(Case::Steff { func, off: 0.5, tol, cap: 100, relax: 0.0 });
             spec.enumerated.push(Case::Steff { func, off: 0.25, tol, cap: 100, relax: 0.9 });
@@ -840,11 +880,12 @@ pub fn run(opts: &Opts) -> i32 {
         ("steffensen-tight-tol", 0.005),
         ("steffensen-slow-contraction", 0.01),
         ("poly-scaled-small", 0.02),
+        ("poly-exhaustion", 0.03),
         ("dim4", 0.05),
         ("rotation-shaped-jacobian", 0.05),
         ("complex-system", 0.03),
     ];
-    spec.rule = "generated: (a) systems F(x)=A(x-r)+eta*N(x-r) of dimension 1-4, A strictly diagonally dominant (|diag| in [1,3], |offdiag| <= 0.25) or diag(|a_kk|) times a product of plane rotations by arbitrary angles (well conditioned, far from symmetric), times 10^[-1,1]; one case in seven a complex-valued system of dimension 1-2 (complex entries, roots and starts, same holomorphic non-linearity); N_i(d)=sin(d_{i+1})d_i+d_{i+2}^2, eta capped so that beta*gamma*|delta|<=0.1, roots in [-3,3]^S, at the origin, or far (|r_i|<=100), starts r+delta (|delta_i|<=0.3), exactly r, or the origin (affine), tol 10^[-10,-3], FD width 10^[-4,-1], n_max=100 or exhaustion caps 0..2, singular class with duplicate integer rows; Newton and secant. (b) polynomials of degree 1-8 expanded from separated roots (grid construction, separation >= 0.3, |z|<=3), Newton starts within 0.8 d/(2n-1) of a chosen root in real and complex arithmetic, Muller triples within 0.1 d (must converge) or 1.5 (may fail), incl. vertical triples. all coefficients optionally multiplied by 10^[-8,4] (roots unchanged). (c) Steffensen on six contractions r and their under-relaxations k x+(1-k) r(x), k in [0,0.97] (same fixed point, slope up to ~0.98), with tolerances 10^[-14,-3]. Oracle: Ok within 2 tol + rounding floor of the root (nearest root for Muller; |g(x)-x| <= 10 tol and distance to the fixed point <= 3 tol + 64 eps|x|/(1-slope)^2 for Steffensen; relaxed maps get tol >= 1e3 eps|x|/(1-slope)^2), Err on singular/exhausted input (or an Ok that meets the accuracy bound), never a panic/NaN, call counts bounded exactly by the iteration cap (Newton: at most n_max evaluations each of F and J; secant: 1 + 2S + max(0, n_max-2) of F). Non-trivial = non-affine system of dimension >= 2, special start, far root, tol <= 1e-8, polynomial degree >= 2, every Steffensen case. Distinct = distinct case JSON.".into();
+    spec.rule = "generated: (a) systems F(x)=A(x-r)+eta*N(x-r) of dimension 1-4, A strictly diagonally dominant (|diag| in [1,3], |offdiag| <= 0.25) or diag(|a_kk|) times a product of plane rotations by arbitrary angles (well conditioned, far from symmetric), times 10^[-1,1]; one case in seven a complex-valued system of dimension 1-2 (complex entries, roots and starts, same holomorphic non-linearity); N_i(d)=sin(d_{i+1})d_i+d_{i+2}^2, eta capped so that beta*gamma*|delta|<=0.1, roots in [-3,3]^S, at the origin, or far (|r_i|<=100), starts r+delta (|delta_i|<=0.3), exactly r, or the origin (affine), tol 10^[-10,-3], FD width 10^[-4,-1], n_max=100 or exhaustion caps 0..2, singular class with duplicate integer rows; Newton and secant. (b) polynomials of degree 1-8 expanded from separated roots (grid construction, separation >= 0.3, |z|<=3), Newton starts within 0.8 d/(2n-1) of a chosen root in real and complex arithmetic, Muller triples within 0.1 d (must converge) or 1.5 (may fail), incl. vertical triples; one case in six with an iteration cap of 0-6 (Err, or an Ok that meets the accuracy bound). all coefficients optionally multiplied by 10^[-8,4] (roots unchanged). (c) Steffensen on six contractions r (and a seventh defined on x >= 0.9 only, where an iterate leaving the domain must end in Err, never Ok(NaN)) and their under-relaxations k x+(1-k) r(x), k in [0,0.97] (same fixed point, slope up to ~0.98), with tolerances 10^[-14,-3]. Oracle: Ok within 2 tol + rounding floor of the root (nearest root for Muller; |g(x)-x| <= 10 tol and distance to the fixed point <= 3 tol + 64 eps|x|/(1-slope)^2 for Steffensen; relaxed maps get tol >= 1e3 eps|x|/(1-slope)^2), Err on singular/exhausted input (or an Ok that meets the accuracy bound), never a panic/NaN, call counts bounded exactly by the iteration cap (Newton: at most n_max evaluations each of F and J; secant: 1 + 2S + max(0, n_max-2) of F). Non-trivial = non-affine system of dimension >= 2, special start, far root, tol <= 1e-8, polynomial degree >= 2, every Steffensen case. Distinct = distinct case JSON.".into();
     spec.max_shrink_iters = 3000;
     run_spec(spec, opts)
 }
